@@ -135,7 +135,7 @@ def frag_tree(rng, depth):
         if rng.random() < 0.12:                              # a one-line paragraph with one code span (leaf FTick)
             pre = ' '.join([rng.choice(FRAG_FIRST)] + [rng.choice(EM_WORDS) for _ in range(rng.randint(0, 3))]) + rng.choice([' ', ' (', ', ', ': "', ''])
             post = rng.choice(['', '.', ' end', ', then more', ')', '" ok', '; z', '?x', 's'])
-            return ('c', pre, rng.choice(CODE_SPANS), post)
+            return ('c', pre, rng.choice(CODE_SPANS), post, rng.choice([1, 1, 1, 2, 2, 3, 5]))       # the number of backticks on each side
         if rng.random() < 0.12:                              # a one-line paragraph with one inline link (leaf FLink)
             pre = ' '.join([rng.choice(FRAG_FIRST)] + [rng.choice(EM_WORDS) for _ in range(rng.randint(0, 3))]) + rng.choice([' ', ' (', ', ', ': "'])
             w = ' '.join(rng.choice(EM_INNER) for _ in range(rng.randint(1, 3)))
@@ -215,7 +215,7 @@ def frag_gallina(t):
     if t[0] == 'k':
         return '(FLink %d %s %s %s %s)' % (ord(t[1][0]), _zl(t[1][1:]), _zl(t[2]), _zl(t[3]), _zl(t[4]))
     if t[0] == 'c':
-        return '(FTick %d %s %s %s)' % (ord(t[1][0]), _zl(t[1][1:]), _zl(t[2]), _zl(t[3]))
+        return '(FTick %d %s %d %s %s)' % (ord(t[1][0]), _zl(t[1][1:]), t[4] - 1, _zl(t[2]), _zl(t[3]))
     if t[0] == 'o':
         x = t[2]
         gx = '(IStrike %s)' % _zl(x[1]) if x[0] == 'strike' else '(IEsc %d)' % ord(x[1]) if x[0] == 'esc' else '(IImg %s %s)' % (_zl(x[1]), _zl(x[2]))
@@ -292,7 +292,7 @@ def frag_spell(t):
     if t[0] == 'k':
         return [t[1] + '[' + t[2] + '](' + t[3] + ')' + t[4]]
     if t[0] == 'c':
-        return [t[1] + '`' + t[2] + '`' + t[3]]
+        return [t[1] + '`' * t[4] + t[2] + '`' * t[4] + t[3]]
     if t[0] == 'o':
         return [t[1] + inl_text(t[2]) + t[3]]
     if t[0] == 'b':
@@ -399,7 +399,7 @@ def frag_expect(t, ln):
         return [trees.TAGS['Paragraph'], ch], [ln]
     if t[0] == 'c':
         pad, content = code_parts(t[2])
-        return [trees.TAGS['Paragraph'], [[0, t[1]], [trees.TAGS['InlineCode'], '`', pad, content]] + ([[0, t[3]]] if t[3] else [])], [ln]
+        return [trees.TAGS['Paragraph'], [[0, t[1]], [trees.TAGS['InlineCode'], '`' * t[4], pad, content]] + ([[0, t[3]]] if t[3] else [])], [ln]
     if t[0] == 's':
         ch = [[0, t[1]]]
         for g in t[2]:
@@ -768,7 +768,8 @@ def run(ctx, only=None):
         post = rng.choice(['', '.', ' end', ', then more', ')', '" ok', '; z', 's'])
         if not (pre + '`' + code).strip(' ') or (pre == '' and False):
             continue
-        text = pre + '`' + code + '`' + post
+        nb = rng.choice([1, 1, 2, 3, 4])
+        text = pre + '`' * nb + code + '`' * nb + post
         ljobs.append((text + '\n', '<p>' + escq(pre) + '<code>' + escq(code_parts(code)[1]) + '</code>' + escq(post) + '</p>\n'))
         ctx.count('code_sentences')
     # ... of C03_breaks_in_paragraph_text: lines followed by any number of spaces before the newline
